@@ -75,7 +75,7 @@ def tour_producers(ctx):
     common.who_may_call(ctx, "R1.new_allow_invalid-callers", T("new_allow_invalid"), [T("new")],
                         "the constructor that can return an invalid tour inside its error is used only by Tour::new, which drops it")
     must_depend(ctx, "R2.constructor-validates", "T1", T("new_allow_invalid"), "dec",
-                [call(ND("is_start_depot")), call(ND("is_end_depot")), call(ND("is_depot")), call(N("can_reach")), has_len()],
+                [call(ND("is_start_depot")), call(ND("is_end_depot")), call(ND("is_depot")), call(N("can_reach"))],
                 "Tour::new accepts a node sequence only if it starts/ends at depots, has a non-depot node, no inner depot, and every pair is connectable")
     o, fd = ctx.require_fn("R2.new-drops-invalid-tour", "T1", T("new"), "Tour::new never hands out the invalid tour carried by the error")
     if fd is not None:
@@ -131,6 +131,8 @@ def rules(ctx):
     for o in ctx.obligations[before:]:
         o.id = o.id.replace("C01/R3.", "C01/R7.")
     flow_arcs(ctx)
+    from . import order
+    order.pair_order(ctx, "R2", only={N("can_reach")})
     # travel times used by the timing rule are the input's own matrix entries (shared with C17)
     from .C17 import loader_subset, getters
     loader_subset(ctx, ["dead-head-matrix", "DeadHeadTrip-new", "Locations-new", "create_service_trip.arg-vehicle_type",
